@@ -23,6 +23,10 @@ structure ClassEntry where
   eqFrom : String
   /-- effective `__eq__`/`__hash__` are `Matrix`'s and have the expected dispatch shape -/
   dunderOk : Bool
+  /-- array hashes are functions of the array VALUES (as `np.array_equal` is): the effective
+  `_compute_hash` does not call `hash_array`, or `mici.utils.hash_array` has the expected shape
+  (integer / floating / bool arrays are cast to float64 before their bytes are hashed) -/
+  hashByValue : Bool
   /-- attribute names read from `self` by the effective `_compute_hash` -/
   hashFields : List String
   /-- attribute names `X` such that the effective `_check_equality` compares `self.X` with `other.Y` -/
@@ -38,6 +42,10 @@ structure ClassEntry where
   caches : List String
   /-- params stored through `Matrix.__init__`'s kwargs loop, which sets arrays read-only -/
   frozen : List String
+  /-- attributes made read-only by an explicit `….flags.writeable = False` statement next to the
+  statement that fills / stores them (lazy caches `_array`, `_eigval`, `_lu_and_piv`; constructor
+  arrays stored outside the kwargs loop) -/
+  frozenExplicit : List String
   /-- property name → stored attribute (`@property def x(self): … return self._x`) -/
   aliases : List (String × String)
   /-- hand-written same-object aliases (low-rank update constructors), syntactically anchored -/
@@ -130,10 +138,23 @@ def frozenExpected : String → List String
 
 def subset (a b : List String) : Bool := a.all fun x => b.contains x
 
+/-- HAND-WRITTEN.  Arrays that are cached lazily or stored outside the kwargs loop and must be made
+read-only by an explicit statement: the memoised dense array of every implicit class, the eigenvalues
+computed by `SymmetricMatrix._compute_eigendecomposition`, the computed LU factors of
+`DenseSquareMatrix`, the constructor arrays of `InverseLUFactoredSquareMatrix`, the eigenvalue
+parameter of the eigendecomposed classes and `unreg_eigval` of the SoftAbs class. -/
+def frozenExplicitExpected (e : ClassEntry) : List String :=
+  (if e.mro.contains "ImplicitArrayMatrix" then ["_array"] else []) ++
+  (if e.mro.contains "SymmetricMatrix" then ["_eigval"] else []) ++
+  (if e.name == "DenseSquareMatrix" then ["_lu_and_piv"] else []) ++
+  (if e.name == "InverseLUFactoredSquareMatrix" then ["_inv_array", "_inv_lu_and_piv"] else []) ++
+  (if e.name == "SoftAbsRegularizedPositiveDefiniteMatrix" then ["unreg_eigval"] else [])
+
 def denoteOf (e : ClassEntry) : List String := (denoteParams e.name).getD []
 
-/-- `_check_equality` / `_compute_hash` / `__eq__` / `__hash__` were understood. -/
-def understood (e : ClassEntry) : Bool := !e.unknown && e.eqSameName && e.dunderOk
+/-- `_check_equality` / `_compute_hash` / `__eq__` / `__hash__` were understood, and array hashes
+are by value (the premise `Respects r h` of `eq_imp_hash_eq` for `r` = equality of values). -/
+def understood (e : ClassEntry) : Bool := !e.unknown && e.eqSameName && e.dunderOk && e.hashByValue
 /-- equality compares every parameter the dense array depends on -/
 def coversDenote (e : ClassEntry) : Bool :=
   (denoteParams e.name).isSome && subset (denoteOf e) e.canonEq
@@ -145,6 +166,7 @@ def eqOnParams (e : ClassEntry) : Bool :=
   subset e.canonEq e.params && subset (denoteOf e) e.params &&
     e.canonEq.all (fun x => !e.caches.contains x)
 def frozenOk (e : ClassEntry) : Bool := subset (frozenExpected e.name) e.frozen
+def frozenExplicitOk (e : ClassEntry) : Bool := subset (frozenExplicitExpected e) e.frozenExplicit
 
 /-- The decidable soundness predicate of one entry (abstract classes cannot be instantiated). -/
 def soundEntry (e : ClassEntry) : Bool :=
